@@ -5,7 +5,7 @@ import math
 import numpy as np
 from hypothesis import strategies as st
 
-from ..core import Facet, Violation
+from ..core import Facet, Violation, attributed
 from ..gen import logfloat
 from ..ref import disk
 
@@ -233,10 +233,11 @@ def check_openings(case):
     to = ch.time_offset_open(pulse_frequency=pulse)
     tc = ch.time_offset_close(pulse_frequency=pulse)
     du = ch.open_duration(pulse_frequency=pulse)
-    o = to.to(unit="s", dtype="float64").values
-    c = tc.to(unit="s", dtype="float64").values
+    with attributed("time_offset_open / time_offset_close / open_duration must be times (convertible to s)"):
+        o = to.to(unit="s", dtype="float64").values
+        c = tc.to(unit="s", dtype="float64").values
+        d = du.to(unit="s", dtype="float64").values
     verify_openings(o, c, ref, "DiskChopper")
-    d = du.to(unit="s", dtype="float64").values
     period = disk.TWO_PI / abs(ref["omega"])
     if d.shape != o.shape or np.max(np.abs(d - (c - o))) > 1e-12 * period:
         raise Violation("open_duration", "open_duration differs from close - open")
@@ -254,14 +255,23 @@ def check_expansion(case):
     kwargs, pulse, ref = build(case)
     ch = DiskChopper(**kwargs)
     cc = Chopper.from_disk_chopper(ch, pulse_frequency=pulse, npulses=case["npulses"])
-    o = cc.time_open.to(unit="s", dtype="float64").values
-    c = cc.time_close.to(unit="s", dtype="float64").values
+    with attributed("Chopper.time_open / time_close must be times (convertible to s)"):
+        o = cc.time_open.to(unit="s", dtype="float64").values
+        c = cc.time_close.to(unit="s", dtype="float64").values
     span = verify_openings(o, c, ref, f"Chopper.from_disk_chopper(npulses={case['npulses']})")
     # the expansion exists to cover npulses source pulses
     period = disk.TWO_PI / abs(ref["omega"])
     need = case["npulses"] / ref["fp"]
     if (float(c.max()) - float(o.min())) < need - period * 1.0000001 - 1e-9:
         labs.append("span-shorter-than-npulses")
+    # "expanded over several source pulses" / docstring "number of pulses to rotate the chopper for":
+    # which rotations exactly are reported is not stated (the package reports rotations -1 .. n-1), but an
+    # expansion that reports only full openings inside [0, npulses pulse periods) still spans that
+    # interval up to one rotation at either end.  Anything shorter does not cover the pulses asked for.
+    if (float(c.max()) - float(o.min())) < need - 2.0 * period * 1.0000001 - 1e-9:
+        raise Violation("span", f"Chopper.from_disk_chopper(npulses={case['npulses']}): reported openings span "
+                                f"{float(c.max()) - float(o.min())!r} s, {case['npulses']} pulse periods are {need!r} s "
+                                f"(rotation period {period!r} s)")
     labs.append(f"span_rotations:{min(int(span), 40)}")
     if abs(float(cc.distance.to(unit='m').value) - 5.0) > 1e-12:
         raise Violation("distance", f"distance {cc.distance.value!r}, axle is 5 m from the origin")
